@@ -96,6 +96,12 @@ pub fn compare(section: &str, prog: &[S], rr: &RefRun) -> Verdict {
         // too long / too big for the reference: outside the checked domain, not run
         return Verdict { violations: vec![], compared: false, src, p2_tag: "skipped".into() };
     }
+    if rr.unspecified.as_deref().map(|u| u.starts_with("operator * on")).unwrap_or(false) || (rr.unspecified.is_some() && src.contains(" * ")) {
+        // an unspecified repetition (integer * string), or any don't-care zone entered by a program that multiplies:
+        // from there on the reference no longer knows the sizes, and a repetition count in the billions is a request
+        // for gigabytes of memory (excluded by C08's statement): not run
+        return Verdict { violations: vec![], compared: false, src, p2_tag: "skipped".into() };
+    }
     guard(section, "src", &src);
     let out = run_text(&src);
     let case = || json!({ "prog": prog, "src": src });
@@ -103,6 +109,9 @@ pub fn compare(section: &str, prog: &[S], rr: &RefRun) -> Verdict {
     let mut compared = false;
     let tag = out.tag();
     match &out {
+        Outcome::Panic(p) if p.msg.contains("capacity overflow") && rr.unspecified.is_some() => {
+            // a request for more memory than can exist, reached after the reference had lost track (excluded)
+        }
         Outcome::Panic(p) => {
             v.push(Violation::new(section, p.signature(), format!("p2sh crashed: {}\n{}", p.describe(), src), case()));
         }
